@@ -238,6 +238,35 @@ func genPScript(r *rng, pf pProfile, id string, cnt counters, emit func(line, ou
 	nops := r.rangeIn(3, pf.maxOps)
 	for k := 0; k < nops && !e.dead; k++ {
 		x := r.intn(total)
+		if r.chance(6) {
+			// directed: a repeat that ends exactly at the block end (= end of the buffered
+			// data) whose earlier occurrence is followed by zero bytes and a non-zero byte —
+			// the tail of the word-at-a-time match extension (getLE64 pads with zeros)
+			pl := r.rangeIn(9, 30)
+			pat := make([]byte, pl)
+			for i := range pat {
+				pat[i] = byte(1 + r.intn(250))
+			}
+			w := append([]byte{}, pat...)
+			for z := r.rangeIn(1, 7); z > 0; z-- {
+				w = append(w, 0)
+			}
+			w = append(w, byte(1+r.intn(200)))
+			for j := r.intn(6); j > 0; j-- {
+				w = append(w, byte(r.intn(256)))
+			}
+			if r.chance(30) {
+				w = append(w, 0) // and a literal in front of the second occurrence that equals a byte before the first
+			}
+			w = append(w, pat...)
+			do("write " + hx(w))
+			cnt.inc("p.directed.tailzero")
+			fl := r.pick(0, 0, 1)
+			for g := 0; g < 20 && !e.dead && e.unparsed() > 0; g++ {
+				do(fmt.Sprintf("parse %d", fl))
+			}
+			continue
+		}
 		switch {
 		case x < pf.wWrite:
 			n := r.pick(0, 1, r.rangeIn(1, 8), r.rangeIn(1, bs), r.rangeIn(1, bs+5), e.bc.BlockSize)
